@@ -76,25 +76,31 @@ def verify_all(rw, acc, denom, before_dig, before_rec, case):
     return probs, n_aff
 
 
-def run_registry(acc, srv, key, target_pairs):
+def run_registry(acc, srv, key, target_pairs, star=False):
     rng = sub_rng(*key)
-    rw = RegWorld(srv, rng, n_families=rng.choice([2, 3, 4]))
+    if star:
+        # one denom shared by (almost) every pair: more than 30 pairs containing the same denom
+        rw = RegWorld(srv, rng, n_tokens=7, n_families=4, all_extras=True)
+    else:
+        rw = RegWorld(srv, rng, n_families=rng.choice([2, 3, 4]))
     A = rw.assets()
     regd = [d for d in rw.denoms if d in rw.reg]
     hot = rng.sample(regd, min(len(regd), rng.choice([2, 3])))     # denoms that will be re-registered
     for d in regd:
         if d in rw.tokens and d not in hot:
             hot.append(d)    # a native denom spelled exactly like a live cw20 address
+    if star:
+        hot = hot[:1]
     step = 0
     updates = 0
-    while step < target_pairs * 3 and (len(rw.model) < target_pairs or updates < 3):
+    while step < target_pairs * 4 and (len(rw.model) < target_pairs or updates < (6 if star else 3)):
         step += 1
-        if rng.random() < 0.78 and len(rw.model) < target_pairs:
+        if rng.random() < (0.97 if star else 0.78) and len(rw.model) < target_pairs:
             # creation, biased to contain a hot denom in first or second position
             h = ("n", rng.choice(hot))
             other = rng.choice([a for a in A if a != h and rw.valid(a)])
             a0, a1 = (h, other) if rng.random() < 0.5 else (other, h)
-            if rng.random() < 0.15:
+            if rng.random() < 0.15 and not star:
                 a0, a1 = rng.sample([a for a in A if rw.valid(a)], 2)
             if frozenset([a0, a1]) in rw.model:
                 continue
@@ -156,7 +162,9 @@ def run_shard(acc, prop, tier, seed, shard, nshards, **kw):
                 continue
             rng = sub_rng("n", seed, PROP, tier, shard, wi)
             tp = rng.choice([3, 8, 12, 14, 20, 33, 40]) if wi else 40
-            rw = run_registry(acc, srv, (seed, PROP, tier, shard, wi), tp)
+            if wi == 1:
+                tp = 38
+            rw = run_registry(acc, srv, (seed, PROP, tier, shard, wi), tp, star=(wi == 1))
         # canary: corrupt the model and expect the verifier to object
         denom = [d for d in rw.reg if any(("n", d) in rec["assets"] for rec in rw.model.values())]
         if denom:
@@ -178,6 +186,7 @@ def floors(acc, tier):
     _w.need(acc, msgs, "updates_ok", 300)
     _w.need(acc, msgs, "updates_with_more_than_10_affected", 40)
     _w.need(acc, msgs, "updates_with_more_than_30_pairs", 20)
+    _w.need(acc, msgs, "updates_with_more_than_30_affected", 8)
     if not any("|pos01|" in k for k in acc.classes):
         msgs.append("no update where the denom sat in both positions across pairs")
     return msgs
